@@ -22,7 +22,20 @@ pub enum VerdictCase {
     Table { status: u8, expected: Option<i32>, stream: u8, stdout_ok: bool, stderr_ok: bool, with_expectation: bool },
     /// document of scenario items through `scrut test -r json`
     Cli { items: Vec<usize>, cram: bool },
+    /// which stream the verdict is taken on, end to end: output_stream in the front-matter defaults, inline, and the
+    /// command-line flag (0 unset, 1 stdout, 2 stderr, 3 combined; flag: 0 none, 1 --no-combine-output, 2 --combine-output)
+    /// x where the expected line / a noise line are written (shape)
+    Stream { doc: u8, inline: u8, flag: u8, shape: u8, cram: bool },
 }
+
+/// (command, stdout, stderr)
+pub const SHAPES: [(&str, &str, &str); 5] = [
+    ("echo hello; echo noise >&2", "hello\n", "noise\n"),
+    ("echo noise; echo hello >&2", "noise\n", "hello\n"),
+    ("echo hello", "hello\n", ""),
+    ("echo hello >&2", "", "hello\n"),
+    ("echo hello; echo hello >&2", "hello\n", "hello\n"),
+];
 
 /// (name, command in markdown, command in cram, expectation lines, written exit code, reference kind, produces exit code?)
 pub struct Item {
@@ -124,11 +137,21 @@ impl Engine for VcVerdict {
                 v.push(VerdictCase::Cli { items: w.clone(), cram });
             }
         }
+        for shape in 0..SHAPES.len() as u8 {
+            for flag in 0..3u8 {
+                for doc in 0..4u8 {
+                    for inline in 0..4u8 {
+                        v.push(VerdictCase::Stream { doc, inline, flag, shape, cram: false });
+                    }
+                }
+                v.push(VerdictCase::Stream { doc: 0, inline: 0, flag, shape, cram: true });
+            }
+        }
         Box::new(v.into_iter())
     }
     fn bound(&self, tier: Tier) -> String {
         format!(
-            "(a) the whole verdict table: 7 exit statuses (Code 0/1/2/255, Unknown, Timeout, Skipped) x expected code {{absent,0,1,2,255}} x output_stream {{unset,stdout,stderr,combined}} x stdout accepted? x stderr accepted? x with/without expectation = 2240 validate calls; (b) every document of 1..{} test cases over {} command behaviours (exit codes, expected/other output, wrong code AND wrong output, kill -9, kill -TERM, exec of a missing program) in Markdown and Cram through `scrut test -r json`",
+            "(c) the stream the verdict is taken on, end to end: output_stream {{unset,stdout,stderr,combined}} in the front-matter defaults x inline x command-line flag {{none,--no-combine-output,--combine-output}} x 5 placements of the expected line and a noise line on stdout/stderr (Markdown; Cram: flag x placements) = 255 runs of `scrut test -r json`; (a) the whole verdict table: 7 exit statuses (Code 0/1/2/255, Unknown, Timeout, Skipped) x expected code {{absent,0,1,2,255}} x output_stream {{unset,stdout,stderr,combined}} x stdout accepted? x stderr accepted? x with/without expectation = 2240 validate calls; (b) every document of 1..{} test cases over {} command behaviours (exit codes, expected/other output, wrong code AND wrong output, kill -9, kill -TERM, exec of a missing program) in Markdown and Cram through `scrut test -r json`",
             if tier == Tier::Quick { 2 } else { 3 },
             ITEMS.len()
         )
@@ -197,6 +220,52 @@ impl Engine for VcVerdict {
                             }
                         }
                     }
+                }
+            }
+            VerdictCase::Stream { doc, inline, flag, shape, cram } => {
+                let sb = Sandbox::new();
+                let names = ["", "stdout", "stderr", "combined"];
+                let (cmd, out, err) = SHAPES[*shape as usize];
+                let mut text = String::new();
+                let name = if *cram {
+                    text.push_str(&format!("Test 0\n  $ {cmd}\n  hello\n"));
+                    "doc.t"
+                } else {
+                    if *doc > 0 {
+                        text.push_str(&format!("---\ndefaults:\n  output_stream: {}\n---\n\n", names[*doc as usize]));
+                    }
+                    let cfg = if *inline > 0 { format!(" {{output_stream: {}}}", names[*inline as usize]) } else { String::new() };
+                    text.push_str(&format!("# Test 0\n\n```scrut{cfg}\n$ {cmd}\nhello\n```\n"));
+                    "doc.md"
+                };
+                sb.write(name, text.as_bytes());
+                let mut args = vec!["test", "--no-color", "-r", "json"];
+                match flag {
+                    1 => args.push("--no-combine-output"),
+                    2 => args.push("--combine-output"),
+                    _ => {}
+                }
+                args.push(name);
+                let run = run_scrut(&sb, &args, &[], Duration::from_secs(60));
+                let format_default = if *cram { 3 } else { 1 };
+                let effective = [[0u8, 1, 3][*flag as usize], *inline, *doc, format_default].into_iter().find(|v| *v != 0).unwrap();
+                let selected = match effective {
+                    1 => out.to_string(),
+                    2 => err.to_string(),
+                    _ => format!("{out}{err}"), // both commands write stdout first
+                };
+                let want = if selected == "hello\n" { "success" } else { "malformed_output" };
+                res.nontrivial.push(("C05", key));
+                let kinds = run.json_kinds();
+                res.outcome.push(("C05", hash64(&("stream", effective, shape, kinds.as_ref().ok().cloned()))));
+                match kinds {
+                    Ok(k) if k == vec![want.to_string()] => {}
+                    other => res.findings.push(Finding::new(
+                        "C05",
+                        "verdict-on-the-selected-stream",
+                        format!("{} `{cmd}` expecting `hello`, output_stream defaults={} inline={} flag={} -> selected {} = {selected:?}: [{want}]", if *cram { "cram" } else { "markdown" }, names[*doc as usize], names[*inline as usize], ["none", "--no-combine-output", "--combine-output"][*flag as usize], names[effective as usize]),
+                        format!("{other:?}; exit status {:?}", run.status),
+                    )),
                 }
             }
             VerdictCase::Cli { items, cram } => {
@@ -283,6 +352,7 @@ impl Engine for VcVerdict {
         match case {
             VerdictCase::Table { status, .. } => *status as usize,
             VerdictCase::Cli { items, cram } => 100 + items.len() * 100 + items.iter().sum::<usize>() + *cram as usize,
+            VerdictCase::Stream { doc, inline, flag, shape, cram } => 50 + (*doc + *inline + *flag + *shape) as usize + *cram as usize,
         }
     }
 }
